@@ -13,7 +13,7 @@
 (* semantics, so an intercepted operator between two literals is routed to *)
 (* the hook like any other.                                                *)
 (*                                                                         *)
-(* The semantics is SandboxOpsSem.  The hook of the conformance harness     *)
+(* The semantics is SandboxOpsSem.  The hook of the conformance harness    *)
 (* (call_binop / call_unop of a subclass) calls the native operator and    *)
 (* adds 1000 to its result (so an application that was not routed is       *)
 (* visible in the rendered value): callback 1 for every operator here.     *)
